@@ -5093,8 +5093,8 @@ class DivSimplifyMacro(Macro):
 
         goal = args[0]
         lhs, rhs = goal.args
-        # case 1: t / t <--> 1
-        if lhs.arg1 == lhs.arg and rhs.is_one():
+        # case 1: t / t <--> 1, for a constant t other than zero (x / 0 = 0)
+        if lhs.arg1 == lhs.arg and rhs.is_one() and lhs.arg.is_constant() and real.real_eval(lhs.arg) != 0:
             return Thm(goal)
         # case 2: t / 1 <--> t
         if lhs.arg1 == rhs and lhs.arg.is_one():
